@@ -2,7 +2,7 @@ let () =
   match Array.to_list Sys.argv with
   | _ :: "c09" :: file :: _ -> C09.run file
   | _ :: ("node04" | "node12" as m) :: file :: _ -> Node_drv.run m file
-  | _ :: ("tree04" | "tree07" | "ntree04" | "ntree07" as m) :: file :: _ -> Tree_drv.run m file
+  | _ :: ("tree04" | "tree07" | "ntree04" | "ntree07" | "ntree12" as m) :: file :: _ -> Tree_drv.run m file
   | _ :: ("c04" | "c07" | "c12" | "c08" | "c14" | "c20" as m) :: file :: _ -> C04.run m file
   | _ :: "c01" :: file :: _ -> C01.run file
   | _ :: "c05" :: file :: _ -> C05.run file
